@@ -133,7 +133,7 @@ HARNESSES = [
                      weight=4 if op else 1)
                 for si in (0, 1) for op in (0, 1)]),
     # ---- configuration -------------------------------------------------------
-    dict(name="create_bp", file="create_bp.c", label="bounded(workers<=2, block size 4096)", timeout=300,
+    dict(name="create_bp", file="create_bp.c", label="bounded(workers<=2, block size 4096)", timeout=60,
          fp={"block_processor_destroy:destroy": "stub_pool_destroy", "destroy": "stub_obj_destroy",
              "copy": "stub_cmp_copy", "get_worker_count": "stub_get_worker_count",
              "set_worker_ptr": "stub_set_worker_ptr", "do_block": "stub_do_block",
